@@ -9,3 +9,4 @@ The theorems live in `Rrtk/Thm/Lemmas/C10Rounding.lean` (namespace `Rrtk.Thm.C10
 import Rrtk.Thm.C10
 import Rrtk.Thm.Lemmas.C10Rounding
 import Rrtk.Thm.Lemmas.C10More
+import Rrtk.Thm.Lemmas.C10ZeroArea
